@@ -202,21 +202,14 @@ fn subst(ty: &Ty, args: &[Ty]) -> Ty {
     }
 }
 
-/// Type identity as scale-info sees it (`TypeInfo::Identity`).
+/// Type identity as scale-info sees it (`TypeInfo::Identity`): `Box<T>` is `T` and every
+/// `PhantomData<_>` is `PhantomData<()>` - at the top level only. `Vec<Box<X>>` and `Vec<X>` are
+/// different Rust types with different `TypeId`s and get two (structurally identical) entries.
 fn identity(ty: &Ty) -> Ty {
     match ty {
         Ty::Boxed(t) => identity(t),
         Ty::Phantom(_) => Ty::Phantom(Box::new(Ty::Tuple(vec![]))),
-        Ty::Prim(_) | Ty::BitVec(..) | Ty::BitOrder(_) | Ty::Param(_) => ty.clone(),
-        Ty::Adt(d, a) => Ty::Adt(*d, a.iter().map(identity).collect()),
-        Ty::Vec(t) => Ty::Vec(Box::new(identity(t))),
-        Ty::Array(t, n) => Ty::Array(Box::new(identity(t)), *n),
-        Ty::Tuple(ts) => Ty::Tuple(ts.iter().map(identity).collect()),
-        Ty::Opt(t) => Ty::Opt(Box::new(identity(t))),
-        Ty::Res(a, b) => Ty::Res(Box::new(identity(a)), Box::new(identity(b))),
-        Ty::Compact(t) => Ty::Compact(Box::new(identity(t))),
-        Ty::Map(k, v) => Ty::Map(Box::new(identity(k)), Box::new(identity(v))),
-        Ty::Set(t) => Ty::Set(Box::new(identity(t))),
+        other => other.clone(),
     }
 }
 
@@ -320,7 +313,7 @@ impl<'a> Interner<'a> {
     fn build(&mut self, ty: &Ty) -> Type<PortableForm> {
         match ty {
             Ty::Param(_) => panic!("harness: open type registered"),
-            Ty::Boxed(_) => unreachable!("identity() removes Box"),
+            Ty::Boxed(_) => unreachable!("identity() removes a top-level Box"),
             Ty::Prim(p) => Self::plain(TypeDef::Primitive(p.def())),
             Ty::Vec(t) => {
                 let e = self.reg(t);
@@ -751,6 +744,11 @@ pub fn program(rng: &mut Rng) -> Program {
                 if v + 1 == nv && g.rng.chance(1, 10) {
                     idx = 255;
                 }
+                // an explicit index that equals the number of variants (the position a
+                // generated marker variant would take)
+                if v + 2 == nv && g.rng.chance(1, 6) && (nv as u8) > idx {
+                    idx = nv as u8;
+                }
                 vs.push(VariantDef {
                     name: format!("V{v}"),
                     index: idx,
@@ -868,6 +866,12 @@ mod mirror {
     #[derive(TypeInfo)]
     pub struct Unit;
     #[derive(TypeInfo)]
+    pub struct Twin {
+        pub a: Vec<Box<Leaf>>,
+        pub b: Vec<Leaf>,
+        pub c: Option<Box<Leaf>>,
+    }
+    #[derive(TypeInfo)]
     pub struct Root {
         pub a: Foo<u8, u32>,
         pub b: Foo<u32, u32>,
@@ -875,6 +879,7 @@ mod mirror {
         pub d: Tup<u32>,
         pub e: Tup<Leaf>,
         pub f: Unit,
+        pub g: Twin,
     }
 
     pub fn real() -> PortableRegistry {
@@ -1009,11 +1014,24 @@ mod mirror {
                 nf("d", Ty::Adt(3, vec![p(Prim::U32)])),
                 nf("e", Ty::Adt(3, vec![Ty::Adt(0, vec![])])),
                 nf("f", Ty::Adt(4, vec![])),
+                nf("g", Ty::Adt(6, vec![])),
+            ])),
+            docs: vec![],
+        };
+        let twin = Def {
+            module: root.module.clone(),
+            name: "Twin".into(),
+            params: vec![],
+            compactable: vec![],
+            body: Body::Struct(Fields::Named(vec![
+                nf("a", Ty::Vec(b(Ty::Boxed(b(Ty::Adt(0, vec![])))))),
+                nf("b", Ty::Vec(b(Ty::Adt(0, vec![])))),
+                nf("c", Ty::Opt(b(Ty::Boxed(b(Ty::Adt(0, vec![])))))),
             ])),
             docs: vec![],
         };
         Program {
-            defs: vec![leaf, foo, en, tup, unit, root],
+            defs: vec![leaf, foo, en, tup, unit, root, twin],
             roots: vec![Ty::Adt(5, vec![]), en_t(Ty::Prim(Prim::Bool))],
         }
     }
